@@ -81,7 +81,10 @@ bool lib_hash_init(zckCtx *zck, zckHash *hash)
         return false;
 }
 
-bool lib_hash_update(zckCtx *zck, zckHash *hash, const char *message, const size_t size)
+/* The bundled SHA functions take the length as an unsigned int */
+#define LIBSHA_MAX_UPDATE 0x40000000
+
+static bool lib_hash_update_part(zckCtx *zck, zckHash *hash, const char *message, const size_t size)
 {
         if(hash->type->type == ZCK_HASH_SHA1) {
             SHA1_Update((SHA_CTX *)hash->ctx, (const sha1_byte *)message, size);
@@ -98,6 +101,17 @@ bool lib_hash_update(zckCtx *zck, zckHash *hash, const char *message, const size
         }
         set_error(zck, "Unsupported hash type: %s", zck_hash_name_from_type(hash->type->type));
         return false;
+}
+
+bool lib_hash_update(zckCtx *zck, zckHash *hash, const char *message, size_t size)
+{
+        while(size > LIBSHA_MAX_UPDATE) {
+                if(!lib_hash_update_part(zck, hash, message, LIBSHA_MAX_UPDATE))
+                        return false;
+                message += LIBSHA_MAX_UPDATE;
+                size -= LIBSHA_MAX_UPDATE;
+        }
+        return lib_hash_update_part(zck, hash, message, size);
 }
 
 char *lib_hash_final(zckCtx *zck, zckHash *hash)
